@@ -34,33 +34,50 @@ Proof.
     change (days_before_year 10000) with 3652059 in *. unfold max_ord. lia.
 Qed.
 
+Lemma start_year_range r : spec_wf r = true -> 1 <= r_y r <= 9999.
+Proof.
+  intros HW. unfold spec_wf in HW.
+  repeat match type of HW with _ && _ = true =>
+    let H := fresh "W" in apply andb_true_iff in HW; destruct HW as [HW H] end.
+  match goal with H : valid_ymd _ _ _ = true |- _ => unfold valid_ymd in H end. lia.
+Qed.
+
 Section YearlyFull.
 Variables (r : raw) (rl : rule).
 Hypothesis HN : normalize r = Ok rl.
 Hypothesis HW : spec_wf r = true.
 Hypothesis Hfr : r_freq r = YEARLY.
-Hypothesis RB_ok : forall y m, 1 <= y <= 9999 -> exists ii, rebuild rl ii_init y m = Ok ii.
-Hypothesis RB_eq : forall y m ii y', 1 <= y <= 9999 -> rebuild rl ii_init y m = Ok ii ->
-  1 <= y' <= 9999 -> y' <> y -> rebuild rl ii y' m = rebuild rl ii_init y' m.
-Hypothesis DF : forall y m ii i, 1 <= y <= 9999 -> rebuild rl ii_init y m = Ok ii ->
+(* the years ylo..yhi in which the three facts hold (1..9999 without BYEASTER, C19's range with it) *)
+Variables (ylo yhi : Z).
+Hypothesis RB_ok : forall y m, ylo <= y <= yhi -> exists ii, rebuild rl ii_init y m = Ok ii.
+Hypothesis RB_eq : forall y m ii y', ylo <= y <= yhi -> rebuild rl ii_init y m = Ok ii ->
+  ylo <= y' <= yhi -> y' <> y -> rebuild rl ii y' m = rebuild rl ii_init y' m.
+Hypothesis DF : forall y m ii i, ylo <= y <= yhi -> rebuild rl ii_init y m = Ok ii ->
   0 <= i < year_len y -> day_rejected rl ii i = Ok (negb (day_ok r (jan1 y + i))).
+
+(* the cursor invariant with the year range, and the passes after which the next year is still inside it
+   (or beyond 9999, where the loop stops) *)
+Definition inv_y (k : Z) (cnt : option Z) (s : state) : Prop :=
+  at_pass_y r rl k cnt s /\ ylo <= c_year s <= yhi.
+Definition okp_y (k : Z) : Prop :=
+  r_y r + (k + 1) * r_interval r <= yhi \/ 9999 < r_y r + (k + 1) * r_interval r.
 
 Let Nfr : freq rl = YEARLY.
 Proof. rewrite (normalize_freq r rl HN). exact Hfr. Qed.
 
-Lemma yearly_days : forall k cnt s, at_pass_y r rl k cnt s ->
+Lemma yearly_days : forall k cnt s, at_pass_y r rl k cnt s -> ylo <= c_year s <= yhi ->
   let y := c_year s in
   exists ds ds' f,
     getdayset rl (c_ii s) y (c_month s) (c_day s) = Ok (ds, 0, year_len y) /\
     filter_loop rl (c_ii s) (py_slice ds 0 (year_len y)) ds false = Ok (ds', f) /\
     somes (py_slice ds' 0 (year_len y)) = filter (fun i => day_ok r (jan1 y + i)) (zrange 0 (year_len y)).
 Proof.
-  intros k cnt s (Ay & Ai & Ar & At & Ac) y. fold y in Ay, Ai, Ar.
+  intros k cnt s (Ay & Ai & Ar & At & Ac) Hr y. fold y in Ay, Ai, Ar, Hr.
   pose proof (rebuild_ii_for rl y _ (c_ii s) Ay Ar) as F.
   assert (YL : 365 <= year_len y <= 366) by (unfold year_len; destruct (is_leap y); lia).
   set (rej := fun i => negb (day_ok r (jan1 y + i))).
   pose proof (filter_loop_correct rl (c_ii s) rej (year_len y) ltac:(lia)
-                ltac:(intros i Hi; apply (DF y (c_month s) (c_ii s) i Ay Ar Hi))) as FL.
+                ltac:(intros i Hi; apply (DF y (c_month s) (c_ii s) i Hr Ar Hi))) as FL.
   cbv zeta in FL.
   exists (map Some (zrange 0 (year_len y))), (map (mark rej) (zrange 0 (year_len y))),
          (existsb rej (zrange 0 (year_len y))).
@@ -92,11 +109,11 @@ Proof.
   apply flat_map_filter.
 Qed.
 
-Lemma yearly_advance2 : forall k cnt s filtered c1 out1, at_pass_y r rl k cnt s ->
-  (exists s', advance rl s filtered c1 out1 = Ok (AdvGo s') /\ at_pass_y r rl (k + 1) c1 s' /\ c_out s' = out1) \/
+Lemma yearly_advance2 : forall k cnt s filtered c1 out1, inv_y k cnt s -> okp_y k ->
+  (exists s', advance rl s filtered c1 out1 = Ok (AdvGo s') /\ inv_y (k + 1) c1 s' /\ c_out s' = out1) \/
   (advance rl s filtered c1 out1 = Ok AdvMax /\ max_ord < step_lo r (k + 1)).
 Proof.
-  intros k cnt s filtered c1 out1 (Ay & Ai & Ar & At & Ac).
+  intros k cnt s filtered c1 out1 [(Ay & Ai & Ar & At & Ac) Hr] Hok.
   destruct (normalize_misc r rl HN) as (Ni & _ & _ & _ & _ & _ & _).
   pose proof (wf_itv r HW) as Hitv.
   unfold advance. rewrite Nfr. change (YEARLY =? YEARLY) with true. cbv iota zeta. rewrite Ni.
@@ -107,24 +124,28 @@ Proof.
     change (jan1 10000) with 3652060 in JM. unfold max_ord. lia.
   - unfold T_MAXYEAR in EM.
     assert (Hy' : 1 <= c_year s + r_interval r <= 9999) by lia.
-    destruct (RB_ok (c_year s + r_interval r) (c_month s) Hy') as (ii2 & R2).
-    rewrite (RB_eq (c_year s) (c_month s) (c_ii s) _ Ay Ar Hy' ltac:(lia)), R2. cbn [bind].
+    assert (Hr' : ylo <= c_year s + r_interval r <= yhi).
+    { unfold okp_y in Hok. rewrite <- EY in Hok. lia. }
+    destruct (RB_ok (c_year s + r_interval r) (c_month s) Hr') as (ii2 & R2).
+    rewrite (RB_eq (c_year s) (c_month s) (c_ii s) _ Hr Ar Hr' ltac:(lia)), R2. cbn [bind].
     unfold finish_advance. cbn [andb].
     left. eexists. split; [reflexivity|]. split; [|reflexivity].
-    unfold at_pass_y. cbn [c_year c_month c_ii c_timeset c_count].
+    unfold inv_y, at_pass_y. cbn [c_year c_month c_ii c_timeset c_count].
+    split; [|exact Hr'].
     split; [exact Hy'|]. split; [exact EY|]. split; [exact R2|]. split; [exact At|reflexivity].
 Qed.
 
-Lemma yearly_step2 : forall k cnt s, at_pass_y r rl k cnt s -> 0 <= k -> True ->
+Lemma yearly_step2 : forall k cnt s, inv_y k cnt s -> 0 <= k -> okp_y k ->
   exists acc' cnt' b, sp_take r (step_items r k) cnt (c_out s) = (acc', cnt', b) /\
-    ((exists s', step rl s = inl s' /\ at_pass_y r rl (k + 1) cnt' s' /\ c_out s' = acc' /\ b = false) \/
+    ((exists s', step rl s = inl s' /\ inv_y (k + 1) cnt' s' /\ c_out s' = acc' /\ b = false) \/
      (exists t, step rl s = inr (acc', t) /\
                 (b = true \/ until_lt_start r \/ max_ord < step_lo r (k + 1)))) /\
     (sp_after_until r (step_lo r k, 0) = true -> acc' = c_out s).
 Proof.
-  intros k cnt s A Hk _.
+  intros k cnt s AA Hk Hok.
+  pose proof AA as [A Hr].
   pose proof A as (Ay & Ai & Ar & At & Ac).
-  destruct (yearly_days k cnt s A) as (ds & ds' & f & E1 & E2 & E3).
+  destruct (yearly_days k cnt s A Hr) as (ds & ds' & f & E1 & E2 & E3).
   pose proof (rebuild_ii_for rl _ _ (c_ii s) Ay Ar) as F.
   destruct (jan1_bounds (c_year s) Ay) as [B1 B2].
   destruct (step_from_days r rl HN HW ltac:(rewrite Hfr; reflexivity) s k cnt ds _ _ ds' f _ E1 E2 E3
@@ -139,7 +160,7 @@ Proof.
   - destruct s1 as [t|].
     + right. exists t. split; [exact PRE|]. destruct (G3 ltac:(discriminate)) as [H|H]; auto.
     + destruct (G2 eq_refl) as [Hb Ec]. subst c1'.
-      destruct (yearly_advance2 k cnt s f c1 out' A) as [(s' & EA & A' & EO)|(EA & Hmax)].
+      destruct (yearly_advance2 k cnt s f c1 out' AA Hok) as [(s' & EA & A' & EO)|(EA & Hmax)].
       * left. exists s'. rewrite PRE, EA. split; [reflexivity|]. split; [exact A'|]. split; [exact EO|exact Hb].
       * right. exists TMaxYear. rewrite PRE, EA. split; [reflexivity|]. right. right. exact Hmax.
   - intros AU. apply (G4 (step_lo r k)); [|exact AU].
@@ -148,10 +169,11 @@ Proof.
     rewrite (step_lo_yearly r k Hfr), <- Ai. lia.
 Qed.
 
-Theorem yearly_iter_correct2 : forall limit n,
+Theorem yearly_iter_correct2 : forall limit n, ylo <= r_y r <= yhi ->
+  (forall j, 0 <= j < Z.of_nat n -> okp_y j) ->
   fst (iterate rl limit n) = fst (spec_iter r limit n).
 Proof.
-  intros limit n.
+  intros limit n Hr0 Hokn.
   destruct (normalize_misc r rl HN) as (Ni & Nsp & Ny & Nm & Nd & Nc & Nu).
   pose proof (wf_itv r HW) as Hitv.
   assert (V : valid_ymd (r_y r) (r_m r) (r_d r) = true).
@@ -159,25 +181,25 @@ Proof.
     repeat match type of HW' with _ && _ = true =>
       let H := fresh "W" in apply andb_true_iff in HW'; destruct HW' as [HW' H] end. assumption. }
   destruct (index_in_year _ _ _ V) as (_ & _ & Hy0).
-  destruct (RB_ok (r_y r) (r_m r) Hy0) as (ii0 & R0).
+  destruct (RB_ok (r_y r) (r_m r) Hr0) as (ii0 & R0).
   pose proof (timeset_is_spec r rl HN HW ltac:(rewrite Hfr; reflexivity)) as HT.
   unfold iterate, init_state. rewrite Nfr. change (YEARLY =? WEEKLY) with false. cbn [andb]. cbv iota.
   rewrite Ny, Nm, Nd, R0. cbn [bind].
   change (YEARLY <? HOURLY) with true. cbv iota. rewrite HT. cbn [bind]. rewrite Nc.
   unfold spec_iter.
   set (s0 := mkSt _ _ _ _ _ _ _ _ _ _ _).
-  assert (A0 : at_pass_y r rl 0 (r_count r) s0).
-  { unfold at_pass_y, s0. cbn [c_year c_month c_ii c_timeset c_count].
+  assert (A0 : inv_y 0 (r_count r) s0).
+  { unfold inv_y, at_pass_y, s0. cbn [c_year c_month c_ii c_timeset c_count]. split; [|exact Hr0].
     split; [exact Hy0|]. split; [ring|]. split; [exact R0|]. split; reflexivity. }
-  assert (H1 : forall k0 cnt0 s1, at_pass_y r rl k0 cnt0 s1 -> c_count s1 = cnt0).
-  { intros k0 cnt0 s1 (_ & _ & _ & _ & Ac). exact Ac. }
+  assert (H1 : forall k0 cnt0 s1, inv_y k0 cnt0 s1 -> c_count s1 = cnt0).
+  { intros k0 cnt0 s1 [(_ & _ & _ & _ & Ac) _]. exact Ac. }
   assert (H2 : forall k0, 0 <= k0 -> step_lo r k0 <= step_lo r (k0 + 1)).
   { intros k0 Hk0. rewrite !(step_lo_yearly r _ Hfr). apply jan1_mono. nia. }
-  assert (H3 : forall k0 cnt0 s1, at_pass_y r rl k0 cnt0 s1 -> 0 <= k0 -> True -> step_lo r k0 <= max_ord).
-  { intros k0 cnt0 s1 (Ay & Ai & _) _ _. rewrite (step_lo_yearly r k0 Hfr), <- Ai.
+  assert (H3 : forall k0 cnt0 s1, inv_y k0 cnt0 s1 -> 0 <= k0 -> okp_y k0 -> step_lo r k0 <= max_ord).
+  { intros k0 cnt0 s1 [(Ay & Ai & _) _] _ _. rewrite (step_lo_yearly r k0 Hfr), <- Ai.
     destruct (jan1_bounds (c_year s1) Ay). unfold year_len in *. destruct (is_leap (c_year s1)); lia. }
-  pose proof (coarse_run_is_spec r rl (at_pass_y r rl) (fun _ => True) H1 H2 H3 yearly_step2
-                limit n 0 (r_count r) s0 A0 ltac:(lia) (fun j _ => I)) as Q.
+  pose proof (coarse_run_is_spec r rl inv_y okp_y H1 H2 H3 yearly_step2
+                limit n 0 (r_count r) s0 A0 ltac:(lia) ltac:(intros j Hj; apply Hokn; lia)) as Q.
   change (c_out s0) with (@nil instant) in Q.
   destruct (run rl limit n s0) as [out t]. destruct (spec_loop r limit n 0 (r_count r) []) as [acc t'].
   cbn [fst] in *. rewrite Q. reflexivity.
@@ -207,7 +229,7 @@ Proof.
     repeat match type of HW' with _ && _ = true =>
       let H := fresh "W" in apply andb_true_iff in HW'; destruct HW' as [HW' H] end.
     unfold between in *. lia. }
-  apply (yearly_iter_correct2 r rl HN HW Hfr).
+  apply (yearly_iter_correct2 r rl HN HW Hfr 1 9999).
   - intros y m Hy. apply (rebuild_succeeds rl y m Hy Hwk TN (or_introl TE)).
   - intros y m ii y' Hy Ar Hy' Hne.
     destruct (rebuild_slots rl y m ii Hy Ar) as (LY & EM).
@@ -216,7 +238,61 @@ Proof.
     rewrite LY. unfold opt_neqb. apply negb_true_iff. apply Z.eqb_neq. lia.
   - intros y m ii i Hy Ar Hi.
     apply (day_filter_correct_guarded r rl y m ii i HN HW Hp Hs (or_introl He) Hy Ar Hi).
+  - apply (start_year_range r HW).
+  - intros j _. unfold okp_y. lia.
 Qed.
+
+(* ------------------------------------------------------------------ instance 1e: the same with BYEASTER *)
+(* BYEASTER (dateutil extension) inside the year range of C19's Easter theorem: every pass, and the year after
+   it (whose Easter fills the mask's 7-day extension), within 1583..4099 *)
+Record yfam_es (r : raw) : Prop := mk_yfam_es {
+  yes_wf : spec_wf r = true;
+  yes_freq : r_freq r = YEARLY;
+  yes_plain : plain_only r = true;
+  yes_weekno : all_opt (r_byweekno r) weekno_safe = true
+}.
+
+Theorem yearly_easter_iter_correct : forall r rl limit n,
+  normalize r = Ok rl -> yfam_es r -> 1583 <= r_y r <= 4098 ->
+  (forall j, 0 <= j < Z.of_nat n -> r_y r + (j + 1) * r_interval r <= 4098) ->
+  fst (iterate rl limit n) = fst (spec_iter r limit n).
+Proof.
+  intros r rl limit n HN [HW Hfr Hp Hs] Hr0 Hn.
+  pose proof (normalize_wkst r rl HN) as Nwk.
+  pose proof (plain_only_no_nth r rl HN Hp) as TN.
+  assert (Hwk : 0 <= wkst rl <= 6).
+  { rewrite Nwk. pose proof HW as HW'. unfold spec_wf in HW'.
+    repeat match type of HW' with _ && _ = true =>
+      let H := fresh "W" in apply andb_true_iff in HW'; destruct HW' as [HW' H] end.
+    unfold between in *. lia. }
+  apply (yearly_iter_correct2 r rl HN HW Hfr 1583 4098).
+  - intros y m Hy. apply (rebuild_succeeds rl y m ltac:(lia) Hwk TN (or_intror Hy)).
+  - intros y m ii y' Hy Ar Hy' Hne.
+    destruct (rebuild_slots rl y m ii ltac:(lia) Ar) as (LY & EM).
+    destruct (rebuild_char rl y m ii ltac:(lia) Ar) as (_ & CN & _).
+    apply rebuild_from_previous_year; [|exact TN|apply CN; exact TN|].
+    + rewrite LY. unfold opt_neqb. apply negb_true_iff. apply Z.eqb_neq. lia.
+    + destruct (truthy (byeaster rl)) eqn:TE; [left; reflexivity|right; apply EM; reflexivity].
+  - intros y m ii i Hy Ar Hi.
+    apply (day_filter_correct_guarded r rl y m ii i HN HW Hp Hs (or_intror Hy) ltac:(lia) Ar Hi).
+  - exact Hr0.
+  - intros j Hj. unfold okp_y. left. apply Hn. exact Hj.
+Qed.
+
+(* non-vacuity: rrule(YEARLY, dtstart=datetime(2023,1,1,9,0), byeaster=(0, -2, 49), bysetpos=(1,-1), count=4):
+   Good Friday and Whit Sunday of each year *)
+Definition raw_yearly_easter_example : raw :=
+  mkRaw YEARLY false 2023 1 1 9 0 0 1 0 (Some 4) None false
+        (Some [1; -1]) None None None (Some [0; -2; 49]) None None None None None.
+Example yearly_easter_example :
+  yfam_es raw_yearly_easter_example /\
+  match normalize raw_yearly_easter_example with
+  | Ok rl => fst (iterate rl 100 40) =
+             [(ord_of_ymd 2023 4 7, 32400); (ord_of_ymd 2023 5 28, 32400); (ord_of_ymd 2024 3 29, 32400);
+              (ord_of_ymd 2024 5 19, 32400)]
+  | Err _ => False
+  end.
+Proof. split; [constructor; reflexivity|vm_compute; reflexivity]. Qed.
 
 (* non-vacuity: rrule(YEARLY, dtstart=datetime(2023,1,1,9,0), bymonth=(1,6), byweekday=(MO,FR),
    bysetpos=(1,3,-1), count=6) *)
@@ -315,7 +391,7 @@ Proof.
       repeat match type of HW' with _ && _ = true =>
         let H := fresh "W" in apply andb_true_iff in HW'; destruct HW' as [HW' H] end.
       unfold between in *. lia. }
-    apply (yearly_iter_correct2 r rl HN HW Hfr).
+    apply (yearly_iter_correct2 r rl HN HW Hfr 1 9999); [| | |apply (start_year_range r HW)|intros j _; unfold okp_y; lia].
     + intros y m Hy. apply (rebuild_nth_succeeds_y rl y m Hy Hwk Nfr TB TN TE PK).
     + intros y m ii y' Hy Ar Hy' Hne.
       destruct (rebuild_slots rl y m ii Hy Ar) as (LY & EM).
